@@ -13,7 +13,8 @@ rounds=[('r1','/tmp/seed','/tmp/seedfix','/tmp/confirm/results.txt','/tmp/seedru
         ('r8','/tmp/seed8',None,'/tmp/confirm8/results.txt','/tmp/seedruns8.txt'),
         ('r9','/tmp/seed9',None,'/tmp/confirm9/results.txt','/tmp/seedruns9.txt'),
         ('r10','/tmp/seed10',None,'/tmp/confirm10/results.txt','/tmp/seedruns10.txt'),
-        ('r11','/tmp/seed11',None,'/tmp/confirm11/results.txt','/tmp/seedruns11.txt')]
+        ('r11','/tmp/seed11',None,'/tmp/confirm11/results.txt','/tmp/seedruns11.txt'),
+        ('r12','/tmp/seed12',None,'/tmp/confirm12/results.txt','/tmp/seedruns12.txt')]
 # what I know about whether the obligation that catches a seed existed before I looked at the seed
 AFTER={
  'r1':{'C15/1':'Flush contract written after the seed was seen','C15/2':'compileRepeat contract was planned, written after the seed was seen',
@@ -24,12 +25,12 @@ AFTER={
   'C05/2':'mixed-and-or clause added after the seed was missed','C06/1':'same clause as C05/2','C06/2':'round() contract written knowing the seed (the clause is the documented rule)',
   'C12/1':'bounded shape stand-in added after the seed was missed','C07/1':'bounded oracle added after the seed was missed (the oracle also found two real defects)',
   'C07/2':'HAVING part of the bounded oracle added after the seed was missed','C02/2':'caught at first run by an invariant; a sharper postcondition was added afterwards'},
- 'r2':{}, 'r3':{}, 'r4':{}, 'r5':{}, 'r6':{}, 'r7':{}, 'r8':{}, 'r9':{}, 'r10':{}, 'r11':{}}
+ 'r2':{}, 'r3':{}, 'r4':{}, 'r5':{}, 'r6':{}, 'r7':{}, 'r8':{}, 'r9':{}, 'r10':{}, 'r11':{}, 'r12':{}}
 # rounds 2 and 3: what the checks said the first time they saw the seed, and what was written afterwards (kept in /verif)
 PROV=json.load(open('/verif/seeded_provenance.json')) if os.path.exists('/verif/seeded_provenance.json') else {}
-for rd in ('r2','r3','r4','r5','r6','r7','r8','r9','r10','r11'):
+for rd in ('r2','r3','r4','r5','r6','r7','r8','r9','r10','r11','r12'):
     AFTER[rd].update(PROV.get(rd,{}).get('after',{}))
-FIRST={rd:PROV.get(rd,{}).get('first_run',{}) for rd in ('r1','r2','r3','r4','r5','r6','r7','r8','r9','r10','r11')}
+FIRST={rd:PROV.get(rd,{}).get('first_run',{}) for rd in ('r1','r2','r3','r4','r5','r6','r7','r8','r9','r10','r11','r12')}
 lines=['# Seeded changes: what is kept here and which check catches what','',
  'Produced by fresh sub-agents that saw only one property and a scratch worktree (round 2: a worktree without the contract files).',
  'Confirmation = in a scratch worktree: the demonstration passes on the unchanged code, fails with the patch, and the full suite passes with the patch.',
@@ -82,7 +83,7 @@ for rd,seeddir,fixdir,conf,runs in rounds:
             lines.append(f"| {rd} {key} | {where} | yes{' (rebased)' if rebased else ''} | {FIRST[rd].get(key,'')[:60].replace('|','/')} | {'CAUGHT' if caught else 'MISSED'} | {first} | {AFTER[rd].get(key,'– (caught as the checks stood)' if rd!='r1' else 'not recorded otherwise')} |")
 # summary per round
 summ=['','## Summary','','| round | kept (confirmed) | reported by the current checks | reported on the first run, before any strengthening for that seed |','|---|---|---|---|']
-for rd in ('r1','r2','r3','r4','r5','r6','r7','r8','r9','r10','r11'):
+for rd in ('r1','r2','r3','r4','r5','r6','r7','r8','r9','r10','r11','r12'):
     rows=[l for l in lines if l.startswith(f'| {rd} ')]
     kept=[l for l in rows if 'NOT confirmed' not in l]
     caught=[l for l in kept if '| CAUGHT |' in l]
